@@ -16,10 +16,10 @@ import (
 // when that name is not attached; ProxyRecord = old record + proxy id; nothing else moves.
 func H_C16_forward() {
 	peers := vfParam("peers", 2)
-	icKind := vfParam("ic", 0)     // 0 none, 1 rewrite destination to a symbolic name, 2 reject
-	nextLen := vfParam("next", 0)  // ProxyNext: 0 nil, 1 one hop, 2 two hops
-	recLen := vfParam("rec", 0)    // ProxyRecord length 0..2
-	fill := vfParam("fill", 0)     // envelopes already queued for each attached peer
+	icKind := vfParam("ic", 0)    // 0 none, 1 rewrite destination to a symbolic name, 2 reject
+	nextLen := vfParam("next", 0) // ProxyNext: 0 nil, 1 one hop, 2 two hops
+	recLen := vfParam("rec", 0)   // ProxyRecord length 0..2
+	fill := vfParam("fill", 0)    // envelopes already queued for each attached peer
 	dialed := []string{}
 	dial := func(id string) (RpcReadWriter, error) {
 		dialed = append(dialed, id)
